@@ -1,5 +1,6 @@
 import MjProof.Model.SolverCert
 import MjProof.Model.IslandSep
+import MjProof.Model.ConeImp
 import Drivers.Common
 /-
 Line protocol of the C10 certificate checker and line-search model.
@@ -18,8 +19,13 @@ Floats are the 16 hex digits of their IEEE bits, ints decimal.
      -> ok                                        the partition makes the documented cost block separable
      -> bad M <i> <j> .. | J <r> <j> .. | free <r> .. | grp <r> <r'> ..     the offending index pairs (Model/IslandSep.lean)
      (the checker of Props/C10.lean `island_partition_checker_sound` / `island_solve_is_global_minimiser`)
+  imp <impratio> <ncon>  {elliptic(0|1) dim nrows mu R*nrows D*nrows f0 f1 f2 f3 f4}*ncon       frictional contacts of one solve
+     -> ok | <r> <mu> <dr> <rel> <nbits> | ...      per contact: deviations of efc_R / contact.mu from the documented impedance law
+        (Constraint.impEll), max |D R - 1|, max relative defect of D[i+j] mu^2 = D[i] friction[j-1]^2, values not bit-identical
+     -> fail <k>                                    contact k does not have the shape of a frictional contact
+     (Model/ConeImp.lean; hypothesis of Props/C10.lean `cone_block_gradIneq_documented_impedance`)
 -/
-open MjProof MjProof.Driver MjProof.Constraint MjProof.Cert MjProof.PrimalSearch MjProof.IslandSep
+open MjProof MjProof.Driver MjProof.Constraint MjProof.Cert MjProof.PrimalSearch MjProof.IslandSep MjProof.ConeImp
 
 def fl? (s : String) : Option Float := floatOfBits? s
 def fls? (l : List String) : Option (List Float) := l.mapM fl?
@@ -115,6 +121,30 @@ def islStep (nv nefc nisl : Nat) (rest : List String) : String :=
     else "bad-op"
   | _, _, _, _, _ => "bad-op"
 
+/-- parse the contacts of an `imp` line -/
+def parseImpCons : (fuel : Nat) → List String → Option (List (Con Float))
+  | 0, [] => some []
+  | 0, _ => none
+  | fuel + 1, ell :: dim :: nr :: mu :: rest =>
+    match ell.toNat?, dim.toNat?, nr.toNat?, fl? mu with
+    | some ell, some dim, some nr, some mu =>
+      if 1 < ell ∨ rest.length < 2 * nr + 5 then none else
+      match fls? (rest.take nr), fls? ((rest.drop nr).take nr), fls? ((rest.drop (2 * nr)).take 5) with
+      | some R, some D, some fr =>
+        (parseImpCons fuel (rest.drop (2 * nr + 5))).map (fun l => (⟨ell = 1, dim, mu, R, D, fr⟩ : Con Float) :: l)
+      | _, _, _ => none
+    | _, _, _, _ => none
+  | _ + 1, _ => none
+
+def impStep (ir : Float) (cons : List (Con Float)) : String :=
+  let devs := cons.map (deviation ir)
+  match devs.zipIdx.find? (fun p => p.1.isNone) with
+  | some p => "fail " ++ toString p.2
+  | none =>
+    "ok" ++ String.join (devs.map (fun d => match d with
+      | some d => " | " ++ floatBits d.r ++ " " ++ floatBits d.mu ++ " " ++ floatBits d.dr ++ " " ++ floatBits d.rel ++ " " ++ toString d.nbits
+      | none => ""))
+
 def step (line : String) : String :=
   match words line with
   | "cert" :: nv :: nefc :: ne :: nf :: ncon :: npts :: rest =>
@@ -155,6 +185,13 @@ def step (line : String) : String :=
           toString o.res.lsIter ++ " " ++ floatBits o.slope
       | none => "bad-op"
     | _, _, _, _, _, _, _, _, _, _ => "bad-op"
+  | "imp" :: ir :: ncon :: rest =>
+    match fl? ir, ncon.toNat? with
+    | some ir, some ncon =>
+      match parseImpCons ncon rest with
+      | some cons => if cons.length = ncon then impStep ir cons else "bad-op"
+      | none => "bad-op"
+    | _, _ => "bad-op"
   | "isl" :: nv :: nefc :: nisl :: rest =>
     match nv.toNat?, nefc.toNat?, nisl.toNat? with
     | some nv, some nefc, some nisl => islStep nv nefc nisl rest
